@@ -63,6 +63,7 @@ type world struct {
 	gen                     *chaingen.Gen
 	chain                   []*chaingen.Block
 	lay                     layout
+	judgingUninterrupted    bool   // the image being judged is the uninterrupted upgrade's (oracle.go uses it to tell a new loss from the recorded finding)
 	floor                   uint64 // layoutPruned: oldest retained block
 	pre                     int    // layoutPartTx: number of blocks already converted (multiple of batchSize)
 	meta                    metaVariant
